@@ -299,8 +299,8 @@ def witness_stream(ctx):
 
 def run(ctx):
     su.quiet()
-    tie_stream(ctx, "send_tensors: trace+result tie (checking transport)", gen_send, ctx.n(350, 6000), "sync_send")
-    tie_stream(ctx, "sync_states: trace+result tie (checking transport)", gen_states, ctx.n(350, 6000), "sync_states")
+    tie_stream(ctx, "send_tensors: trace+result tie (checking transport)", gen_send, ctx.n(600, 6000), "sync_send")
+    tie_stream(ctx, "sync_states: trace+result tie (checking transport)", gen_states, ctx.n(600, 6000), "sync_states")
     witness_stream(ctx)
     from .. import gloo_runner
     gloo_runner.gloo_stream(ctx, [gen_send, gen_states], classify=None)
